@@ -117,6 +117,7 @@ func vNow() int64                 { return 0 }
 func vThreads() int               { return 0 }
 func vCRCCount() int              { return 0 }
 func vCRCInfo(k int) (uint32, int) { return 0, 0 }
+func vCRCResult(k int) uint32      { return 0 }
 
 // vOverride redirects a function of the package under test to f for the rest of the path
 // (engine only; harnesses that use it cannot be replayed natively).
